@@ -27,7 +27,29 @@ from core import Failure, f2b, b2f, f2q, q2frac, close
 ID = "C12"
 TITLE = "Reported statistics and counters agree with the trajectories"
 LEAN_MODULE = "SnowProofs.Props.C12"
-THEOREMS = []  # filled below (after the helper definitions) -- see THEOREMS at the end
+_T = lambda n, c, s="full": dict(name="Snow.C12." + n, clause=c, strength=s)  # noqa: E731
+THEOREMS = [
+    _T("tnuc_first_ice", "ice first appears at the reported nucleation time: t_nuc = t[first column with sigma>0]"),
+    _T("tnuc_grid", "nucleation times lie on the grid: t_nuc = (k+1)*dt for an executed step k"),
+    _T("tnuc_last_step_counterexample", "REFUTED 'times lie within the process': a vial nucleating in the last step gets "
+       "t_nuc = N*dt beyond the last grid time, no column shows its ice (K3)", "counterexample"),
+    _T("Tnuc_supercooled", "the nucleation temperature is below T_eq_l"),
+    _T("Tnuc_step_temperature", "the nucleation temperature is the vial's temperature after the liquid update of the nucleating step"),
+    _T("tsol_def", "t_sol = t[first column with sigma>threshold] - t_nuc; none if no column is above the threshold"),
+    _T("tsol_nonneg", "a solidification time is non-negative"),
+    _T("tsol_only_if_nucleated", "a solidification time exists only for nucleated vials"),
+    _T("fromStates_times_eq", "nucleationTimes/solidificationTimes(fromStates=True) equal the recorded ones for every stored "
+       "vial whose ice is visible in a stored column (per stored vial; the scatter into the storage mask and the "
+       "group selection are executable model code compared on every run, not re-proved)"),
+    _T("fromStates_Tnuc_within_one_step", "nucleationTemperatures(fromStates=True) = recorded T_nuc minus the sensible "
+       "update q/hl*dt of the nucleating step (equality is false)", "partial"),
+    _T("fromStates_Tnuc_counterexample", "REFUTED 'states-derived nucleation temperature equals the recorded one' (K2)", "counterexample"),
+    _T("counter_states", "sigmaCounter(t,thr,fromStates=True) = #{stored vials with sigma(first grid time >= t) > thr}"),
+    _T("counter_nuc_stats", "on-grid t: sigmaCounter(t,0) on the stats path = #{t_nuc <= t} = the states count"),
+    _T("counter_sol_stats_counterexample", "REFUTED 'sigmaCounter(t) counts the vials solidified at t' on the stats path: it "
+       "compares the solidification DURATION with clock time (K4)", "counterexample"),
+    _T("nonvacuous", "hypotheses are satisfiable (a concrete run that nucleates and crosses the threshold)", "nonvacuity"),
+]
 TRUSTED = [
     "Lean 4.33 kernel; axioms per theorem listed under coverage.axioms",
     "theorems are over the reals: IEEE rounding is not modelled (t[k] = k*dt exactly)",
@@ -37,6 +59,9 @@ TRUSTED = [
     "getVialGroup is taken as a given mask (C16 is about it)",
 ]
 ASSUMPTIONS = [
+    "theorem hypotheses (structure Hyp): dt > 0, threshold >= 0, positive initial ice for a supercooled vial (constants), "
+    "and an admissible trajectory (sigma never negative; a vial with ice keeps some) - the last one is monitored on "
+    "every real run (distribution tag 'adm-violated')",
     "query times of the counters lie within the process (0 <= t <= last grid time); beyond the last grid time "
     "sigmaCounter(fromStates=True) silently reads column 0 (argmax of an all-False array) - reported in the evidence "
     "distribution, not counted as a violation",
@@ -200,6 +225,14 @@ def _physics(S, obs):
 
 
 def run_impl(case):
+    import contextlib
+    import io
+
+    with contextlib.redirect_stdout(io.StringIO()):
+        return _run_impl(case)
+
+
+def _run_impl(case):
     kind = case["kind"]
     try:
         if kind in ("real", "laststep"):
@@ -566,6 +599,16 @@ def classify(case, impl):
         tend = impl["t"][impl["ncols"] - 1]
         if any(x is not None and x > tend for x in impl["tnuc"]):
             tags.append("nucleation-in-last-step")
+        for row in impl["Xs"]:
+            seen = False
+            bad = False
+            for x in row:
+                if x < 0 or (seen and not x > 0):
+                    bad = True
+                seen = seen or x > 0
+            if bad:
+                tags.append("adm-violated")
+                break
         for d in impl["perThr"]:
             if not isinstance(d["count_states"], dict) and d["count_states"] and d["count_states"][-1] == 0 and nn > 0:
                 tags.append("beyond-end-query-reads-column-0")
